@@ -54,6 +54,27 @@ def prepare_scratch(repo, scratch):
     shutil.copytree(os.path.join(VERIF, "kani"), hdir)
     # mechanical extractions (closure bodies that cannot be called as functions), verbatim, from the ORIGINAL text
     for ex in props.EXTRACTS:
+        if ex.get("kind") == "fns":
+            # whole fn items, verbatim, concatenated (compiled in the harness against a model of a dependency)
+            with open(os.path.join(hdir, ex["out"]), "w") as f:
+                f.write("// fn items extracted mechanically and verbatim from %s (%s)\n" % (ex["file"], ", ".join(ex["scopes"])))
+                for item in ex.get("items", []):
+                    # whole items (struct definitions), verbatim
+                    lines_ = open(os.path.join(repo, ex["file"])).read().split("\n")
+                    a_, b_ = inject.find_scope(lines_, item)
+                    f.write("\n".join(lines_[a_:b_ + 1]) + "\n\n")
+                f.write(ex.get("header", "") + "\n")
+                names = ex["fns"]
+                if names == "*":
+                    # every fn item of the scope except the listed ones (so that a helper added to the impl is carried along)
+                    names = [n for n in inject.list_fns(os.path.join(repo, ex["file"]), ex["scopes"]) if n not in ex.get("exclude", [])]
+                    missing = [n for n in ex.get("require", []) if n not in names]
+                    if missing:
+                        raise inject.LostAnchor("fns %r not found in %s" % (missing, ex["scopes"]))
+                for name in names:
+                    f.write(inject.extract_fn_text(os.path.join(repo, ex["file"]), ex["scopes"], name) + "\n\n")
+                f.write(ex.get("footer", "") + "\n")
+            continue
         if ex.get("kind") == "fn_tail":
             body, a, b = inject.extract_fn_tail(os.path.join(repo, ex["file"]), ex["scopes"], ex["fn"], ex["marker"])
         else:
@@ -631,7 +652,7 @@ def main():
     ap.add_argument("--repo", default="/repo")
     ap.add_argument("--only", default=None)
     ap.add_argument("--keep", action="store_true")
-    ap.add_argument("--jobs", type=int, default=5)
+    ap.add_argument("--jobs", type=int, default=int(os.environ.get("VERIF_JOBS", "5")))
     a = ap.parse_args()
     if a.what == "list":
         for pid, P in props.PROPS.items():
